@@ -79,6 +79,17 @@ def _scan_array_ufunc(arr_mod):
                     and isinstance(node.body[0].targets[0], ast.Name) and node.body[0].targets[0].id == "unit_operator"
                     and isinstance(node.body[0].value, ast.Name)):
                 swaps.append((glob[a.comparators[0].id].__name__, glob[node.body[0].value.id].__name__))
+    # the out= fix-up: `multiply(<buffer>, mul, out=<buffer>)` — on the unyt array `out` (a nested
+    # __array_ufunc__ call) or on the raw view `out_func`
+    fix_targets = []
+    for node in ast.walk(tree):
+        if (isinstance(node, ast.Call) and isinstance(node.func, ast.Name) and node.func.id == "multiply"
+                and len(node.args) == 2 and isinstance(node.args[0], ast.Name) and isinstance(node.args[1], ast.Name)
+                and node.args[1].id == "mul"):
+            outs = [k.value.id for k in node.keywords if k.arg == "out" and isinstance(k.value, ast.Name)]
+            fix_targets.append((node.args[0].id, outs[0] if outs else None))
+    if len(fix_targets) != 1 or fix_targets[0][0] != fix_targets[0][1] or fix_targets[0][0] not in ("out", "out_func"):
+        raise ValueError(f"the out= fix-up `multiply(x, mul, out=x)` was not found as expected: {fix_targets}")
     unit_operator_in.sort()
     if len(unit_operator_in) != 2:
         raise ValueError(f"expected two `unit_operator in (...)` tests in __array_ufunc__, found {unit_operator_in}")
@@ -92,6 +103,7 @@ def _scan_array_ufunc(arr_mod):
         "eqNeUfuncs": eq_ne,
         "tupleOutputUfuncs": tuple_outputs,
         "ruleSwaps": swaps,
+        "fixupReenters": fix_targets[0][0] == "out",
     }
 
 
@@ -228,6 +240,9 @@ def generate(X):
         + "/-- `if unit_operator is X and not u0.same_dimensions_as(u1): unit_operator = Y` -/\ndef ruleSwaps : List (String × String) := ["
         + ", ".join(f"({X.lstr(a)}, {X.lstr(b)})" for a, b in scan["ruleSwaps"])
         + "]\n\n"
+        + "/-- the `out=` fix-up is `multiply(out, mul, out=out)` on the unyt array (a nested `__array_ufunc__` call)\n"
+        + "    rather than `multiply(out_func, mul, out=out_func)` on the raw buffer (read off the source) -/\n"
+        + f"def fixupReenters : Bool := {'true' if scan['fixupReenters'] else 'false'}\n\n"
         + "/-- `_apply_power_mapping(multiply, u, size, shape, kwargs)`: (shape, axis keyword: -2 absent / -1 None / index, exponent) -/\n"
         + "def reduceCountProbes : List (List Nat × Int × Int) := [\n"
         + ",\n".join(f"  ([{', '.join(map(str, sh))}], {code}, {e})" for sh, code, e in rprobes)
